@@ -21,6 +21,8 @@ FUNCTIONS = [
     "monkeytype.tracing.CallTracer.handle_call / handle_return / _get_func",
     "monkeytype.tracing.trace_calls",
     "monkeytype.trace",
+    "monkeytype.typing.get_type / get_dict_type / shrink_types (hook freedom: what they touch on the program's objects)",
+    "monkeytype.tracing.get_func / get_func_in_mro / _has_code / get_locals_from_previous_frames (hook freedom)",
 ]
 EXC = (Exception, ValueError, RecursionError, AttributeError, KeyError, TypeError)
 
